@@ -249,3 +249,45 @@ func boolByte(b bool) byte {
 
 func f32bits(f float32) uint32 { return math.Float32bits(f) }
 func f64bits(f float64) uint64 { return math.Float64bits(f) }
+
+func fitsInt32(u uint64) bool {
+	i := int64(u)
+	return i >= -1<<31 && i <= 1<<31-1
+}
+
+// ---- length-delimited items: varint length prefix followed by that many bytes
+
+// lenDelimStart: offset of the payload.
+func lenDelimStart(p []byte, o int) int { return o + varintLen(p, o) }
+
+// lenDelimEnd: offset just behind the payload.
+func lenDelimEnd(p []byte, o int) int { return o + varintLen(p, o) + int(varintVal(p, o)) }
+
+// maxLen: no buffer is larger than this (amd64 allocation limit); keeps the sums below
+// free of overflow.
+const maxLen = 1 << 48
+
+// lenDelimOK: a length prefix is present and the declared payload lies inside p.
+func lenDelimOK(p []byte, o int) bool {
+	n := varintLen(p, o)
+	l := int(varintVal(p, o))
+	return n != 0 && l >= 0 && l <= maxLen && o+n+l <= len(p)
+}
+
+// lenDelimStrict: ... and it is what a conforming writer emits (length below 2 GiB).
+func lenDelimStrict(p []byte, o int) bool {
+	return lenDelimOK(p, o) && varintStrict(p, o) && varintVal(p, o) <= 1<<31-1
+}
+
+// lenDelimTooLong: a length prefix is present but declares more bytes than remain.
+func lenDelimTooLong(p []byte, o int) bool {
+	n := varintLen(p, o)
+	l := int(varintVal(p, o))
+	return n != 0 && (l < 0 || l > maxLen || o+n+l > len(p))
+}
+
+// ---- lemma carriers (see common.contracts)
+
+func lemma_varint_inverse(p []byte, o int, v uint64) {}
+func lemma_zigzag_inverse(x32 int32, x64 int64)      {}
+func lemma_lendelim(p []byte, o int, l int) {}
